@@ -18,7 +18,7 @@ def malformed_cases(rng, opts, cli_groups, cfg_groups, count):
     recs = []
     names = [o for g in cli_groups for o in opts if o["group"] == g and o["ty"] in ("f32", "f64", "u32", "i32")]
     for k in range(count):
-        kind = ["unknown-cli", "malformed-cli", "unknown-cfg", "malformed-cfg", "missing-cfg"][k % 5]
+        kind = ["unknown-cli", "malformed-cli", "unknown-cfg", "malformed-cfg", "missing-cfg", "stray-token"][k % 6]
         cid = "x%d" % k
         o = rng.choice(names)
         bad = rng.choice(["abc", "1.5x", "--", "1e", "0x1g"])
@@ -27,6 +27,13 @@ def malformed_cases(rng, opts, cli_groups, cfg_groups, count):
             cfg = None
         elif kind == "malformed-cli":
             argv = ["--config", "/dev/null", "--%s=%s" % (o["name"], bad)]
+            cfg = None
+        elif kind == "stray-token":
+            # a token that belongs to no option (forgotten dash, `key=value` typed on the command line, a second value
+            # for a single-valued option): must stop the program like any other unknown token
+            stray = rng.choice(["stray", "T=5", "GridSize", "%s=3" % o["name"], "1e-3"])
+            valid = ["--%s" % o["name"], "3"]
+            argv = ["--config", "/dev/null"] + rng.choice([[stray] + valid, valid + [stray], [stray]])
             cfg = None
         elif kind == "unknown-cfg":
             argv = ["--config", "@CFG@"]
@@ -125,7 +132,7 @@ def run(chk):
     chk.cov["distinct_nontrivial"] = len({r["optext"] for r in recs if r["chosen"]}) + len({r["optext"] for r in bad})
     chk.cov["rule"] = ("type-directed random assignments: each option independently absent / on the command line / in the "
                        "config file / both (distinct values), legacy aliases in the config file, long/short/--name=value "
-                       "forms, shuffled order; malformed stream: unknown keys, unparsable values, missing config file; "
+                       "forms, shuffled order; malformed stream: unknown keys, unparsable values, tokens that belong to no option, missing config file; "
                        "non-trivial = at least one option set; distinct = distinct op text")
     src = {"cli": 0, "cfg": 0, "both": 0, "alias": 0}
     for r in recs:
